@@ -20,7 +20,9 @@ EVIDENCE = {
     'rule': 'Each run is 1-3 sessions on one Crazyflie; in each session 1-2 harness threads send requests with expected '
             'replies (distinct patterns that share prefixes, timeouts 0.05-0.5 s) to an echo service while requests and '
             'replies are lost and replies are delayed around the timer period; sessions end with close_link at a seeded '
-            'instant (possibly with timers pending) and the object is reopened.',
+            'instant (possibly with timers pending) and the object is reopened.  The driver close takes 0-100 ms of virtual '
+            'time during which packets handed to it are accepted and discarded.  The table of pending answers is observed '
+            'through a dict subclass, i.e. at the library\'s own reads and writes under its own lock.',
     'directed': 'reply delay swept across the timer period (timeout-2ms .. timeout+2ms in 0.5 ms steps) for one request',
     'real': ['Crazyflie.send_packet', '_no_answer_do_retry', '_check_for_answers', 'close_link', '_link_error_cb',
              'threading.Timer logic', '_IncomingPacketHandler', 'TocFetcher/Memory/Log requests during the handshake'],
@@ -39,9 +41,31 @@ EVIDENCE = {
 }
 
 
+def gen_radio(seed, rng, knobs):
+    """The library's notion of "a link that guarantees delivery" over the real radio driver: a Crazyflie object on a
+    RadioDriver whose radio thread is started 1-3 times (pause/restart or close/connect of the same driver object, as
+    a boot-loader or scanning tool does), each time against a peer that does or does not confirm safelink."""
+    knobs['line_mean'] = rng.choice([0, 0, 10])
+    knobs.pop('pct', None)
+    knobs.pop('p_starve', None)
+    phases = []
+    for _ in range(rng.choice([1, 2, 2, 3])):
+        reqs = []
+        for i in range(rng.choice([1, 2, 4])):
+            reqs.append({'ch': rng.randrange(4), 'data': [0x40 + len(phases) * 8 + i, rng.randrange(256), rng.randrange(256)],
+                         'k': rng.choice([1, 2, 3]), 'timeout': rng.choice([0.05, 0.1, 0.2]),
+                         'drop': rng.choice([0, 0, 1, 2, 4]), 'gap': rng.choice([0.0, 0.01, 0.1])})
+        phases.append({'safelink': rng.random() < 0.5, 'via': rng.choice(['pause', 'close']), 'reqs': reqs,
+                       'reply_delay': rng.choice([0.0, 0.0, 0.3])})
+    return {'seed': seed, 'scenario': 'retry-radio-driver-reuse', 'knobs': knobs, 'radio': True, 'ops': phases,
+            'device': wgen.gen_device(rng, n_log=1, n_param=1, version=10, mems=[])}
+
+
 def gen(seed):
     rng = random.Random(H(seed, 'plan'))
     knobs = common.sched_knobs(rng)
+    if rng.random() < 0.1:
+        return gen_radio(seed, rng, knobs)
     knobs['needs_resending'] = rng.random() < 0.8
     knobs['lat'] = rng.choice([(0.0005, 0.003), (0.0, 0.0), (0.002, 0.02)])
     mode = rng.choice(['clean', 'loss', 'delay', 'mix', 'mix'])
@@ -103,7 +127,125 @@ def directed(tier):
     return plans
 
 
+def execute_radio(ctx):
+    import cflib.crtp.radiodriver as rd
+    from cflib.crazyflie import Crazyflie
+    from cflib.crtp.crtpstack import CRTPPacket
+    from world.radiocf import RadioWorld
+    plan, sim = ctx.plan, ctx.sim
+    dev = wgen.build_device(sim, plan['device'])
+    rw = RadioWorld(sim, ctx.faults, dev, airtime=0.001, safelink=plan['ops'][0]['safelink'])
+    Drv = rw.install()
+    rd.set_retries_before_disconnect(100)
+    rd.set_retries(1)
+    ctx.notes['nontrivial'] = True
+    uri = 'radio://0/80/2M/E7E7E7E7E7'
+    st = {'drop': {}, 'seen': {}, 'answered': {}}
+    orig_receive = dev.receive
+
+    def receive(link, header, data):
+        # the firmware ignores the first `drop` copies of a request (busy, queue overflow): only the library's own
+        # retransmission can get it through
+        if (header >> 4) & 0xF == 9:
+            key = (header & 3, bytes(data))
+            st['seen'].setdefault(key, []).append(sim.now)
+            if st['drop'].get(key, 0) > 0:
+                st['drop'][key] -= 1
+                return
+        return orig_receive(link, header, data)
+    dev.receive = receive
+
+    def scenario():
+        drv = Drv()
+        errs = []
+        drv.connect(uri, None, lambda msg: errs.append(msg))
+        cf = Crazyflie(link=drv)
+        got = []
+        cf.packet_received.add_callback(lambda pk: got.append((sim.now, pk.header, bytes(pk.data))) if pk.port == 9 else None)
+        for pi, ph in enumerate(plan['ops']):
+            if pi > 0:
+                # stop the radio thread, the Crazyflie reboots with another safelink capability, start the same object again
+                if ph['via'] == 'pause':
+                    drv.pause()
+                else:
+                    drv.close()
+                p_ = rw.peer
+                p_.safelink_capable = ph['safelink']
+                p_.has_safelink = False
+                p_.curr_up = p_.curr_down = 1
+                p_.last_pid = p_.last_frame = None
+                p_.last_ack = b''
+                del p_.txq[:]
+                if ph['via'] == 'pause':
+                    drv.restart()
+                else:
+                    drv.connect(uri, None, lambda msg: errs.append(msg))
+                    # (the dispatcher may sit for up to a second on the receive queue of the closed session)
+                    P.sim_sleep(1.1)
+                ctx.probe('same radio driver object started again (%s)' % ph['via'])
+            # wait for the negotiation to finish
+            common.wait_until(sim, lambda: rw.peer.has_safelink == ph['safelink'] and rw.dongle.results and
+                              (ph['safelink'] or sum(1 for r in rw.dongle.results[-12:] if r[3] == bytes([0xFF, 5, 1])) == 0),
+                              1.0, 0.002)
+            P.sim_sleep(0.05)
+            dev.reply_delay = (lambda port, ch, data, d=ph['reply_delay']: d if port == 9 else 0.0) if ph['reply_delay'] else None
+            issued = []
+            for r in ph['reqs']:
+                P.sim_sleep(r['gap'])
+                pk = CRTPPacket()
+                pk.set_header(9, r['ch'])
+                pk.data = bytes(r['data'])
+                key = (r['ch'], bytes(r['data']))
+                st['drop'][key] = r['drop'] if not ph['safelink'] else 0
+                t0 = sim.now
+                cf.send_packet(pk, expected_reply=tuple(r['data'][:r['k']]), timeout=r['timeout'])
+                issued.append((r, key, t0))
+            # quiescence
+            P.sim_sleep(max(r['timeout'] for r in ph['reqs']) * 7 + ph['reply_delay'] + 0.5)
+            for (r, key, t0) in issued:
+                seen = st['seen'].get(key, [])
+                answered = [g for g in got if g[0] >= t0 and (g[1] & 3) == r['ch'] and g[2] == bytes(r['data'])]
+                if ph['safelink']:
+                    ctx.probe('requests on a safelink radio link')
+                    if len(seen) != 1:
+                        ctx.violation('4', 'retransmission-on-reliable-link', 'phase %d (safelink confirmed, driver started '
+                                      'via %s): request %r reached the Crazyflie %d times (reply delay %.2f s, timeout %.2f s)'
+                                      % (pi, ph['via'] if pi else 'connect', key, len(seen), ph['reply_delay'], r['timeout']))
+                        return
+                else:
+                    ctx.probe('requests on a radio link without safelink')
+                    if len(seen) < r['drop'] + 1 or not answered:
+                        ctx.violation('1', 'request-not-retransmitted', 'phase %d (no safelink, driver started via %s): '
+                                      'request %r was ignored %d times by the firmware and reached it only %d times; '
+                                      'answered %d times; link.needs_resending=%r' % (
+                                          pi, ph['via'] if pi else 'connect', key, r['drop'], len(seen), len(answered),
+                                          getattr(drv, 'needs_resending', None)))
+                        return
+                    gaps = [b - a for a, b in zip(seen, seen[1:])]
+                    if any(g < r['timeout'] - 0.02 for g in gaps[:r['drop']]):
+                        ctx.violation('1', 'retransmitted-too-early', 'request %r: gaps %r, timeout %.2f' % (key, gaps, r['timeout']))
+                        return
+            if cf._answer_patterns:
+                ctx.violation('1', 'request-never-answered', 'phase %d: still pending %r' % (pi, sorted(cf._answer_patterns)))
+                return
+        drv.close()
+        if errs:
+            ctx.violation('0', 'unexpected-link-error', errs[0][:100])
+        P.sim_sleep(0.3)
+
+    verdict = sim.run(scenario)
+    if verdict[0] in ('deadlock', 'timeout', 'livelock'):
+        from simkit.harness import hang_signature
+        sg, msg = hang_signature(verdict)
+        ctx.violation('0', sg, msg, verdict[1])
+    for name, exc, tb in sim.thread_deaths:
+        ctx.violation('0', 'thread-died %s @%s' % (exc.split(':')[0], cflib_site(tb)),
+                      'library thread %s died: %s' % (name, exc), tb)
+
+
 def execute(ctx):
+    if ctx.plan.get('radio'):
+        return execute_radio(ctx)
     from cflib.crazyflie import Crazyflie
     from cflib.crtp.crtpstack import CRTPPacket
     plan = ctx.plan
@@ -264,8 +406,12 @@ def run_session(ctx, w, dev, cf, si, s, ev, model, state, CRTPPacket):
     if s.get('fail'):
         w.fail_plan.append({'after': ctx.work.randint(3, 40), 'mode': 'driver', 'block': 0})
     state['closing'] = 0
-    if not cf._answer_patterns and 'fresh_table' in state:
-        cf._answer_patterns = state['fresh_table']()
+    if 'fresh_table' in state:
+        # (a request issued by a send_packet call that raced the previous close_link may have left a dead entry behind:
+        # it is carried over, it is not part of this session's model)
+        t = state['fresh_table']()
+        t.update(cf._answer_patterns)
+        cf._answer_patterns = t
     cf.open_link('sim://cf')
     if s['wait'] != 'none':
         common.wait_until(sim, lambda: s['wait'] in got or 'connection_failed' in got or 'disconnected' in got,
@@ -300,13 +446,17 @@ def run_session(ctx, w, dev, cf, si, s, ev, model, state, CRTPPacket):
         if ctx.faults.explicit is not None:
             ctx.faults.explicit = {}
         dev.reply_delay = None
+        def pending_now():
+            # entries of this session's requests (dead entries left by a send that raced an earlier close are not waited for)
+            return [p_ for p_ in list(dict.keys(cf._answer_patterns)) if p_ in model]
+
         def quiet():
-            return not cf._answer_patterns and not model
+            return not pending_now() and not model
         ok = common.wait_until(sim, lambda: quiet() and (P.sim_sleep(0.05) or quiet()), 20.0, 0.01)
         if not ok and cf.link is not None:
-            if cf._answer_patterns:
+            if pending_now():
                 ctx.violation('1', 'request-never-answered', 'still pending 20 s after the last fault: %r'
-                              % (sorted(cf._answer_patterns.keys()),))
+                              % (sorted(pending_now()),))
             else:
                 ctx.violation('1', 'model-pending-but-library-forgot', 'model still expects %r' % (sorted(model),))
     if cf._answer_patterns:
@@ -422,7 +572,8 @@ def oracle(ctx, w, tx, ev, pk_first, slack, req_info=None, t_end=0.0):
             to = ctx_timeout(ctx, port, recs[0])
             if to is None:
                 continue
-            if gap < to - 1e-9:
+            # (with stalls the first transmission can be late relative to the start of its timer)
+            if gap < to - (0.06 if ctx.knobs.get('p_stall') else 1e-9):
                 ctx.violation('1', 'retransmitted-too-early', 'header=%#x data=%r retransmitted after %.6f s, timeout %.3f'
                               % (a[4], a[5], gap, to))
                 return
